@@ -728,3 +728,27 @@ Proof.
 Qed.
 
 End Main.
+
+(* ------------------------------------------------------------------ *)
+(* the remaining site is guarded by an invariant of the loader: a document annotated from a plain value is key-consistent *)
+
+Lemma assoc_annot_some p (m : list (string * value)) k :
+  In k (map fst m) ->
+  assoc k ((fix go (m : list (string * value)) : list (string * pv) :=
+              match m with [] => [] | (k0, x) :: r => (k0, annotate (path_extend p k0) x) :: go r end) m) <> None.
+Proof.
+  induction m as [|[k0 x] m IH]; cbn [map fst In assoc]; [contradiction|]. intros [E|H].
+  - subst k0. rewrite String.eqb_refl. discriminate.
+  - destruct (String.eqb k k0); [discriminate|]. apply IH. exact H.
+Qed.
+
+Theorem annotate_wfv : forall v p, wfv (annotate p v) = true.
+Proof.
+  fix IH 1. intros v p. destruct v as [| | | | | | |l|m| | |]; try reflexivity.
+  - cbn [annotate wfv]. generalize 0%N as i. induction l as [|x l IHl]; intros i; cbn; [reflexivity|]. rewrite IH. cbn. apply IHl.
+  - cbn [annotate wfv]. apply andb_true_intro. split.
+    + apply forallb_forall. intros k Hk. apply in_map_iff in Hk as ([k0 x] & <- & Hin). cbn [fst].
+      pose proof (assoc_annot_some p m k0 (in_map fst m (k0, x) Hin)) as H.
+      destruct (assoc k0 _); [reflexivity|contradiction].
+    + induction m as [|[k0 x] m IHm]; cbn; [reflexivity|]. rewrite IH. cbn. exact IHm.
+Qed.
